@@ -324,6 +324,11 @@ def r19_14(ctx):
                     field = i
                 if isinstance(a, ast.Subscript) and isinstance(a.slice, ast.Constant) and a.slice.value == gidx and not isinstance(a.value, ast.Call):
                     field = i
+                # parts = re_ansi.split(text): [plain, g1, g2, plain, g1, g2, ...] walked in steps of (groups + 1): parts[index + k] is group k
+                if isinstance(a, ast.Subscript) and isinstance(a.value, ast.Name) and isinstance(a.slice, ast.BinOp) and isinstance(a.slice.op, ast.Add) and isinstance(a.slice.right, ast.Constant) and a.slice.right.value == gidx:
+                    srcs = [x.value for x in walk_local(tk.node) if isinstance(x, ast.Assign) and len(x.targets) == 1 and norm(x.targets[0]) == a.value.id]
+                    if len(srcs) == 1 and isinstance(srcs[0], ast.Call) and norm(srcs[0].func) == "re_ansi.split":
+                        field = i
     if field is None:
         raise AnalysisError("_ansi_tokenize: cannot follow the SGR group of re_ansi into the token it yields")
     sgr_var = None
@@ -755,6 +760,22 @@ def r19_10(ctx):
         if isinstance(x, ast.Call) and (norm(expand_alias(x.func, al)) == f"{acc}.append" or norm(x.func) in appenders) and x.args:
             n += 1
             st = x.args[1] if len(x.args) > 1 else next((k.value for k in x.keywords if k.arg == "style"), None)
+            # the style may travel with the text through a list of (text, style) pieces that is replayed at the end
+            if isinstance(st, ast.Name):
+                via = None
+                for lp in walk_local(f.node):
+                    if isinstance(lp, ast.For) and isinstance(lp.target, ast.Tuple) and isinstance(lp.iter, ast.Name) and any(isinstance(e_, ast.Name) and e_.id == st.id for e_ in lp.target.elts) and any(x is y for b_ in lp.body for y in ast.walk(b_)):
+                        via = (lp.iter.id, [i for i, e_ in enumerate(lp.target.elts) if isinstance(e_, ast.Name) and e_.id == st.id][0], len(lp.target.elts))
+                if via is not None:
+                    lst, idx, arity = via
+                    adders = {f"{lst}.append"} | {k for k, vs in binds.items() if all(norm(v) == f"{lst}.append" for v in vs)}
+                    puts = [c for c in walk_local(f.node) if isinstance(c, ast.Call) and norm(c.func) in adders and len(c.args) == 1]
+                    if not puts or not all(isinstance(c.args[0], ast.Tuple) and len(c.args[0].elts) == arity for c in puts):
+                        raise AnalysisError(f"AnsiDecoder.decode_line: the (text, style) pieces of `{lst}` are not built by plain tuple appends")
+                    okp = all("self.style" in norm(c.args[0].elts[idx]) for c in puts)
+                    ctx.check(okp, f.fq, short(puts[0]), f"{m.relpath}:{puts[0].lineno}", "each piece is recorded with the style current when its text was seen",
+                              f"`{short(puts[0])}` records decoded text without the decoder's current style")
+                    continue
             ctx.check(st is not None and "self.style" in norm(st), f.fq, short(x), f"{m.relpath}:{x.lineno}", "plain text appended with the current style",
                       f"`{short(x)}` appends decoded text without the decoder's current style")
     ctx.floor(n, 1, "appends to the accumulated text")
